@@ -36,7 +36,7 @@ mi=os.path.join(srcdir, patchname.replace('patch','meta').replace('.diff','.json
 if os.path.exists(mi):
     try: meta=json.load(open(mi))
     except Exception as e: meta={"raw":open(mi).read()}
-classes=[l.strip()[:200] for l in open(checklog) if l.startswith('violation class') or l.startswith('further violation')]
+classes=[l.strip()[:200] for l in open(checklog, errors='replace') if l.startswith('violation class') or l.startswith('further violation')]
 json.dump({"property":prop,"name":name,"breaks":meta.get("summary"),"needs":meta.get("needs"),
   "demo":{"file":os.path.basename(dest),"place_at":dest,"command":cmd,"exit_without_patch":int(clean),"exit_with_patch":int(patched)},
   "suite_failures_beyond_baseline":suite,
